@@ -2,6 +2,7 @@ import ScyllaVerif.Model.Util
 import ScyllaVerif.Model.Murmur3
 import ScyllaVerif.Model.PartitionKey
 import ScyllaVerif.Model.SerializedValuesC03
+import ScyllaVerif.Model.PkFetchC03
 /-! Line-protocol driver for C03.  Input: `<case>\t<implementation output>`; output: the model's line.
 
 * `hash <hex> <chunk lengths>`   → `<finish (chunks.foldl write init)> <murmur3Spec data>`
@@ -16,6 +17,9 @@ import ScyllaVerif.Model.SerializedValuesC03
 * `sesspart schema=<0|1|2> seed=<s>` → the implementation's line (snapshot + operations) with the results recomputed by
   `preparedPartitioner` / `boundCalculateToken` / `clusterComputeTokenChecked`
 * `pname <hex utf-8 name | N>`   → `parsed=<from_str> selected=<partitioner after unwrap_or_default>`
+* `pkfetch <id hex> <name:kind:pos:type:value,…>` → the implementation's line (`ks=… pk=… log=… ; ctok … ; ntok …`) with
+  the keyspace's presence, the partition-key column order and every token recomputed from the COLUMN ROWS of the case
+  (`PkFetchC03.tableOfRows` / `keyspaceOfTables` / `resolveKeyspace`) and the operations' inputs
 Value syntax: hex, `-` (empty), `N` (null), `U` (unset), `z<len>x<hh>` (`len` bytes, byte `i` = `hh + 7 i mod 256`). -/
 namespace ScyllaVerif.Drive.C03
 open ScyllaVerif.Util ScyllaVerif.Murmur3 ScyllaVerif.PartitionKey
@@ -166,6 +170,90 @@ def sesspart (impl : String) : String :=
             " ; ".intercalate (headLine :: ops.map (sesspartOp schemaP schemaT))
       | _ => "bad-line"
 
+/-! `pkfetch`: the metadata fetch of ONE table from its `system_schema.columns` rows (in the order of the case), in a
+keyspace `ks` that also holds `t` and the CDC log table `t_scylla_cdc_log`. -/
+
+open ScyllaVerif.PkFetchC03 in
+def parseColRow (s : String) : Option ColRow :=
+  match s.splitOn ":" with
+  | [name, kind, pos, ty, _val] =>
+    let k : Option ColKind := if kind == "p" then some .partitionKey else if kind == "c" then some .clustering
+      else if kind == "r" then some .other else none
+    match k, pos.toInt? with
+    | some k, some p => some ⟨name, k, p, ty⟩
+    | _, _ => none
+  | _ => none
+
+/-- `ty:hex` items of a positional key. -/
+def parseTyped (s : String) : Option (List (String × List UInt8)) :=
+  if s == "-" then some []
+  else (s.splitOn ",").mapM (fun e => match e.splitOn ":" with
+    | [ty, h] => (parseHex h).map (fun b => (ty, b))
+    | _ => none)
+
+/-- `name=ty:hex` items of a named key. -/
+def parseNamed (s : String) : Option (List (String × String × List UInt8)) :=
+  if s == "-" then some []
+  else (s.splitOn ",").mapM (fun e => match e.splitOn "=" with
+    | [n, tv] => match tv.splitOn ":" with
+      | [ty, h] => (parseHex h).map (fun b => (n, ty, b))
+      | _ => none
+    | _ => none)
+
+def cdcPartitionerName : List UInt8 := bytesOf "com.scylladb.dht.CDCPartitioner"
+
+open ScyllaVerif.PkFetchC03 in
+def pkfetch (rowsS impl : String) : String :=
+  match (rowsS.splitOn ",").mapM parseColRow with
+  | none => "bad-case"
+  | some rows =>
+    let one : FetchedTable := ⟨["pk"], [], [("pk", "blob")]⟩
+    let fetched := keyspaceOfTables [("t", .ok one), ("t_scylla_cdc_log", .ok one), ("pkf", tableOfRows rows)]
+    let resolved := resolveKeyspace none fetched
+    let part : String → Option (List UInt8) := fun n => if n == "t_scylla_cdc_log" then some cdcPartitionerName else none
+    let schemaP : SchemaSnapshot := match resolved with
+      | none => []
+      | some ts => [(bytesOf "ks", ts.map (fun (n, _) => (bytesOf n, part n)))]
+    let schemaT : TableSnapshot := match resolved with
+      | none => []
+      | some ts => [(bytesOf "ks", ts.map (fun (n, t) => (bytesOf n, ⟨t.pkSpecs.length, part n⟩)))]
+    let specs : Option (List (String × String)) := (resolved.bind (fun ts => ts.lookup "pkf")).map (·.pkSpecs)
+    let pkS := match resolved.bind (fun ts => ts.lookup "pkf") with
+      | none => "notable"
+      | some t => if t.partitionKey.isEmpty then "-" else ",".intercalate t.partitionKey
+    let logP := match preparedPartitioner (some (bytesOf "ks", bytesOf "t_scylla_cdc_log")) schemaP with
+      | .cdc => "cdc" | .murmur3 => "murmur3"
+    let head := s!"ks={if resolved.isSome then "present" else "absent"} pk={pkS} log={logP}"
+    let op : String → String := fun o =>
+      match words o with
+      | ["ctok", "log", key, _res] =>
+        match parseHex key with
+        | some id => s!"ctok log {key} {showCtok (clusterComputeToken schemaT (bytesOf "ks") (bytesOf "t_scylla_cdc_log") [.value id])}"
+        | none => "bad-op"
+      | ["ctok", "pkf", key, _res] =>
+        match parseTyped key with
+        | some kv =>
+          let ok := match specs with | some sp => keyTypesOk sp (kv.map (·.1)) | none => true
+          s!"ctok pkf {key} {showCtok (clusterComputeTokenChecked ok schemaT (bytesOf "ks") (bytesOf "pkf") (kv.map (fun x => .value x.2)))}"
+        | none => "bad-op"
+      | ["ntok", "pkf", key, _res] =>
+        match parseNamed key with
+        | some nv =>
+          let r : Except ClusterTokenErr Int64 := match specs with
+            | none => .error .unknownTable
+            | some sp =>
+              match namedKey sp nv with
+              | none => .error .serialization
+              | some kv => clusterComputeTokenChecked (keyTypesOk sp (kv.map (·.1))) schemaT (bytesOf "ks") (bytesOf "pkf")
+                  (kv.map (fun x => .value x.2))
+          s!"ntok pkf {key} {showCtok r}"
+        | none => "bad-op"
+      | _ => "bad-op"
+    if impl.startsWith "e2e-skip" then impl
+    else match impl.splitOn " ; " with
+      | [] => "bad-line"
+      | _ :: ops => " ; ".intercalate (head :: ops.map op)
+
 def run (case impl : String) : String :=
   match words case with
   | ["hash", hex, lens] =>
@@ -270,6 +358,7 @@ def run (case impl : String) : String :=
     | some ss, some rs => showTok (batchFirstToken ss rs)
     | _, _ => "bad-case"
   | "sesspart" :: _ => sesspart impl
+  | ["pkfetch", _id, rows] => pkfetch rows impl
   | ["pname", name] =>
     let showP : PartitionerName → String := fun p => match p with | .murmur3 => "murmur3" | .cdc => "cdc"
     if name == "N" then s!"parsed=none selected={showP (selectPartitioner none)}"
